@@ -52,11 +52,15 @@ Pad(f) == IF "pad" \in DOMAIN f /\ f.pad THEN Dbl(" generated banner", 12) ELSE 
 \* line terminator of the file: "\n" or "\r\n" (f.eol); the line of a declaration is the same under both
 Eol(f) == IF "eol" \in DOMAIN f THEN f.eol ELSE "\n"
 RECURSIVE RelLines(_, _, _, _)
-RelLines(f, rels, i, k) == IF i > Len(rels) THEN "" ELSE "    define" \o Gap(f) \o rels[i] \o (IF Loose(f) THEN " :" ELSE ":") \o " [k" \o ToString(k) \o "]" \o Eol(f) \o RelLines(f, rels, i + 1, k)
+\* f.cont: the type restriction of the FIRST relation of every declaration continues on a second line, and that line begins with a
+\* restriction on a type that is called `type` (a keyword the grammar admits as a name): it reads like a declaration, it is none
+Cont(f) == "cont" \in DOMAIN f /\ f.cont
+RelLines(f, rels, i, k) == IF i > Len(rels) THEN "" ELSE "    define" \o Gap(f) \o rels[i] \o (IF Loose(f) THEN " :" ELSE ":") \o " [k" \o ToString(k)
+                             \o (IF Cont(f) /\ i = 1 THEN "," \o Eol(f) \o "      type with kc]" ELSE "]") \o Eol(f) \o RelLines(f, rels, i + 1, k)
 DeclText(f, d, k) == (IF Loose(f) THEN Eol(f) ELSE "")
                      \o (IF d.kind = "ext" THEN "extend" \o Gap(f) \o "type" \o Gap(f) ELSE "type" \o Gap(f)) \o d.name \o Eol(f)
                      \o (IF Len(d.rels) > 0 THEN "  relations" \o Eol(f) \o RelLines(f, d.rels, 1, k) ELSE "")
-DeclLen(f, d) == (IF Loose(f) THEN 1 ELSE 0) + 1 + (IF Len(d.rels) > 0 THEN 1 + Len(d.rels) ELSE 0)
+DeclLen(f, d) == (IF Loose(f) THEN 1 ELSE 0) + 1 + (IF Len(d.rels) > 0 THEN 1 + Len(d.rels) + (IF Cont(f) THEN 1 ELSE 0) ELSE 0)
 CondText(f, c, k) == (IF Loose(f) THEN Eol(f) ELSE "") \o "condition" \o Gap(f) \o c \o (IF Loose(f) THEN " (x: int) {" ELSE "(x: int) {") \o Eol(f) \o "  x < " \o ToString(k) \o Eol(f) \o "}" \o Eol(f)
 CondLen(f) == IF Loose(f) THEN 4 ELSE 3
 RECURSIVE DeclsText(_, _, _, _)
@@ -70,7 +74,7 @@ RECURSIVE SumLen(_, _, _)
 SumLen(f, ds, n) == IF n = 0 THEN 0 ELSE DeclLen(f, ds[n]) + SumLen(f, ds, n - 1)
 LooseOff(f) == IF Loose(f) THEN 1 ELSE 0                                                         \* the blank line in front of a declaration
 DeclLine(f, i) == HeaderLen(f) + SumLen(f, f.decls, i - 1) + LooseOff(f)                          \* zero-based line of `type x` / `extend type x`
-RelLine(f, i, j) == DeclLine(f, i) + 1 + j                                                   \* ... of the j-th `define`
+RelLine(f, i, j) == DeclLine(f, i) + 1 + j + (IF Cont(f) /\ j > 1 THEN 1 ELSE 0)                                                   \* ... of the j-th `define`
 CondLine(f, j) == HeaderLen(f) + SumLen(f, f.decls, Len(f.decls)) + CondLen(f) * (j - 1) + LooseOff(f)   \* ... of the j-th `condition`
 \* every declaration of a file with its line: <<"type"|"ext", name, "", line>>, <<"rel", type, relation, line>> (relations of extensions), <<"cond", name, "", line>>
 LineTable(f) == { <<f.decls[i].kind, f.decls[i].name, "", DeclLine(f, i)>> : i \in 1..Len(f.decls) }
